@@ -187,11 +187,21 @@ def run_shard(spec, acc):
                 s.request(rq.sign_auth_request(rq.AUTH_PATHS[0], good["raw"], 0,
                                                rq.gen_receipt(rng), rq.gen_proof(rng)))
                 acc.count("stack_malformed_after_wellformed")
+            if rng.random() < 0.3:
+                # ... or right after a request that failed on the link: the manager has a
+                # reconnection pending, which a refused request must not carry out either
+                from ..simdev.transport import Fault
+                s.bus.arm({0: Fault(rng.choice(["read_error", "write_error"]))})
+                s.request({"command": "getPubKey", "version": 5, "keyId": rq.AUTH_PATHS[0]})
+                s.bus.arm({})
+                dev.pending_link = None
+                acc.count("stack_malformed_with_repair_pending")
             for rep in range(rng.choice([1, 2, 3])):
                 mark = len(s.bus.events)
                 reply, exc, out = s.request(req)
                 acc.count("stack_malformed")
-                apdus = s.bus.apdus(mark)
+                # any transport activity counts (close / enumerate / open / exchanges)
+                apdus = s.bus.events[mark:]
                 if exc is not None or reply is None or reply.get("errorcode") != -102 or apdus:
                     acc.violation("undecodable-tx-not-102:%s%s" % (
                         cls.split("@")[0], ":when-repeated" if rep else ""),
